@@ -1,5 +1,5 @@
 """framework.py — shared run context: findings, broken obligations, decision rule,
-evidence and replay files (DESIGN.md section 2.2)."""
+evidence and replay files (DESIGN.md section 2)."""
 from __future__ import annotations
 
 import hashlib
